@@ -167,6 +167,13 @@ func genCase(t *rapid.T, o genOpts) *c16Case {
 
 	scenario := []string{"single", "single", "single", "seq-stale", "seq-unauth-then-auth", "concurrent-same", "concurrent-same", "concurrent-other"}[lab.Uniform(t, "scenario", 8)]
 	kind := changeKinds[lab.Uniform(t, "kind", len(changeKinds))]
+	if scenario == "concurrent-other" && o.Known != nil && o.Known(keyDataRaceOther) {
+		// known defect D2: the services' instance maps are not synchronised
+		if o.Exclude != nil {
+			o.Exclude(keyDataRaceOther)
+		}
+		scenario = "concurrent-same"
+	}
 
 	// ---- topology of the old configuration
 	nsrc := 1
@@ -333,7 +340,7 @@ func genCase(t *rapid.T, o genOpts) *c16Case {
 
 	// ---- scripted failure (only where the first request is expected to try the apply)
 	if (scenario == "single" || scenario == "seq-stale") && cs.Reqs[0].Allow && cs.Reqs[0].HashMode == "fresh" && kind != "none" && lab.Chance(t, "fault", 60) {
-		fk := []string{"set", "set", "commit", "src-open", "src-open", "proc-open", "proc-open"}[lab.Uniform(t, "faultkind", 7)]
+		fk := []string{"set", "set", "commit", "src-open", "src-open", "proc-open", "proc-open", "stop-flush", "stop-flush"}[lab.Uniform(t, "faultkind", 9)]
 		if fk == "proc-open" && len(bumped) == 0 {
 			fk = "src-open"
 		}
@@ -354,6 +361,8 @@ func genCase(t *rapid.T, o genOpts) *c16Case {
 			}
 		case "commit":
 			cs.Fault = faultPlan{Kind: "commit"}
+		case "stop-flush":
+			cs.Fault = faultPlan{Kind: "stop-flush"}
 		case "src-open":
 			si := lab.Uniform(t, "failsrc", len(lc.Sources))
 			lc.Sources[si].OpenFailInst = 2 // the first run is instance 1, the restart dispenses instance 2
